@@ -178,6 +178,7 @@ type Exec struct {
 	tickers    []*Ticker
 	now        int64
 	envs       map[string]any
+	mapPolicy  func(label string, keys []string) int
 }
 
 var (
